@@ -180,12 +180,33 @@ class JobCtx:
                     abstracted_products=ex.abstracted, validated=self.validated)
 
 _current_child_ctx = None
+class JobCap(Exception): pass
 def _run_job(spec):
     modname, func, kwargs, name = spec
     t0 = time.time(); root = os.getpid()
+    cap = int(float(os.environ.get('VERIF_JOB_CAP_S', '0')))
+    if cap:
+        # per-job wall-clock cap (thorough tier): the job's forked explorers form one process group that is torn down when the cap
+        # is reached; the job is then reported as NOT explored (never as held)
+        import signal
+        try: os.setpgrp()
+        except OSError: pass
+        def on_alarm(signum, frame):
+            if os.getpid() != root: os._exit(5)
+            signal.signal(signal.SIGTERM, signal.SIG_IGN)
+            try: os.killpg(0, signal.SIGTERM)
+            except OSError: pass
+            raise JobCap()
+        signal.signal(signal.SIGALRM, on_alarm); signal.alarm(cap)
     try:
         mod = importlib.import_module(modname)
-        r = getattr(mod, func)(name=name, **kwargs)
+        try:
+            r = getattr(mod, func)(name=name, **kwargs)
+        except JobCap:
+            return dict(name=name, capped=True, wall_s=round(time.time() - t0, 2), cex=[], paths=0, obligations=0, discharged=0, allow_empty=True)
+        finally:
+            if cap:
+                import signal as _s; _s.alarm(0)
         for c in r.get('cex', []): c.setdefault('job_func', func); c.setdefault('job_kwargs', kwargs)
         return r
     except BaseException as e:
@@ -232,16 +253,28 @@ def run_check(prop, tier, seed, only=None, nproc=None):
     if only: jobs = [j for j in jobs if only in j['name']]
     rnd = random.Random(seed); rnd.shuffle(jobs)
     specs = [('mirsym.obligations.' + prop, j['func'], j.get('kwargs', {}), j['name']) for j in jobs]
+    if tier == 'thorough': os.environ.setdefault('VERIF_JOB_CAP_S', '1800')
     nproc = nproc or int(os.environ.get('VERIF_NPROC', '14'))
     results = []
     if nproc == 1 or len(specs) == 1:
         results = [_run_job(s) for s in specs]
     else:
         ctx = multiprocessing.get_context('fork')
+        # time budget (thorough tier only, VERIF_BUDGET_S, default 2.5 h): jobs run in a seeded random order; when the budget is
+        # used up the remaining jobs are NOT explored and are named in the evidence (outside_bounds) - they are never counted as held
+        budget = float(os.environ.get('VERIF_BUDGET_S', '0' if tier == 'quick' else '9000'))
         with ctx.Pool(min(nproc, len(specs)), maxtasksperchild=1) as pool:
             for r in pool.imap_unordered(_run_job, specs):
                 results.append(r)
+                if budget and time.time() - t0 > budget and len(results) < len(specs):
+                    import signal
+                    for w in list(getattr(pool, '_pool', [])):          # each worker leads the process group of its job's forked explorers
+                        try: os.killpg(w.pid, signal.SIGTERM)
+                        except (OSError, AttributeError): pass
+                    pool.terminate(); break
                 if os.environ.get('VERIF_VERBOSE'): sys.stderr.write('[%s] job %-40s paths=%-6s obligations=%-6s cex=%d %s %.1fs\n' % (prop, r['name'], r.get('paths'), r.get('obligations'), len(r.get('cex', [])), 'INCONCLUSIVE' if r.get('inconclusive') else '', r.get('wall_s', 0)))
+    done_names = set(r['name'] for r in results)
+    skipped = [sp_[3] for sp_ in specs if sp_[3] not in done_names] + [r['name'] + ' (job time cap)' for r in results if r.get('capped')]
     results.sort(key=lambda r: r['name'])
     # ---- counterexamples: confirm natively, then match against known findings
     known = load_known()
@@ -316,7 +349,7 @@ def run_check(prop, tier, seed, only=None, nproc=None):
                             symbolic_steps=tot('steps'), jobs=[dict((k, r.get(k)) for k in ('name', 'mode', 'paths', 'obligations', 'discharged', 'exec_queries', 'closing_queries', 'wall_s', 'panics', 'covers', 'notes', 'abstracted_products') if r.get(k) not in (None, [], {}, 0) or k == 'name') for r in results],
                             functions_encoded=sorted(set(f for r in results for f in r.get('fns', [])))[:400],
                             library_models=sorted(set(f for r in results for f in r.get('models', []))),
-                            bounds=getattr(mod, 'BOUNDS', {}).get(tier, ''), outside_bounds=getattr(mod, 'OUTSIDE', ''),
+                            bounds=getattr(mod, 'BOUNDS', {}).get(tier, ''), outside_bounds=getattr(mod, 'OUTSIDE', '') + ('; NOT explored within the time budget of this run (%d of %d jobs): %s' % (len(skipped), len(specs), ', '.join(skipped)[:3000]) if skipped else ''),
                             known_findings=[dict(clause=k[0], signature=k[1], count=v[2]) for k, v in known_hits.items()],
                             inconclusive=inconclusive, exhaustive=False,
                             explanation='paths = feasible symbolic execution paths of the real MIR (states); queries = SMT queries discharged (transitions); every obligation is pc ⇒ assertion, decided by z3 over all attribute values within the bounds'),
@@ -329,6 +362,7 @@ def run_check(prop, tier, seed, only=None, nproc=None):
     for key, path, c in violations:
         print('VIOLATION property=%s replay=%s' % (prop, path))
         print('  clause=%s signature=%s: %s' % (key[0], key[1], c.get('what')))
+    if skipped: print('BUDGET: %d of %d jobs were not explored within the time budget (listed in the evidence under outside_bounds)' % (len(skipped), len(specs)))
     for m in inconclusive: print('INCONCLUSIVE: ' + m)
     print('%s %s: jobs=%d paths=%d obligations=%d discharged=%d violations=%d known=%d inconclusive=%d wall=%.1fs' % (
         prop, tier, len(results), tot('paths'), tot('obligations'), tot('discharged'), len(violations), len(known_hits), len(inconclusive), wall))
